@@ -11,6 +11,8 @@ Job kinds
   seek       a write job with sf_seek calls between the writes, plus a twin job without them
   geom       a short write job at a sample rate on either side of every threshold of wavlike_srate2blocksize (incl. the
              products that wrap a C int)
+  narrow     int calls with arbitrary low halves and normalised double calls of values in [-1, 1), plus a twin job that hands
+             the codec's 16-bit values over as shorts (top 16 bits of the int; nearest integer to x * 32767)
 
 Correspondence (kind 'corr'): every write return value, every sf_seek result, the data region byte for byte, the frame count the
 close function hands to the header writer (`fact` chunk of WAV / W64, numSampleFrames of AIFF), frames at re-open, and every
@@ -23,6 +25,8 @@ Property predicates on the implementation's own transcript (kind 'pred'):
   partition  (C07) same caller values, many calls vs. one call per run of equal type vs. calls of at most 1000 items: byte-identical files
   seekclean  (C05, C07) sf_seek calls that were all refused (-1) leave no trace: the file is byte-identical to the one written
              without them
+  narrow     (C02) an int write keeps the most significant 16 bits, a normalised double write of x in [-1, 1) stores the
+             nearest integer to x * 32767: byte-identical to the file written from those shorts
 """
 import collections, concurrent.futures, struct
 
@@ -38,7 +42,7 @@ COMBOS = sorted(KINDS)
 SRS = [8000, 22050, 32000, 44100, 1 << 30, 11025, 48000, 1, (1 << 31) - 1]
 GEOM_PRODUCTS = [11999, 12000, 22999, 23000, 43999, 44000, (1 << 31) - 1, 1 << 31, (1 << 31) + 11999, (1 << 31) + 12000, (1 << 32) - 2]
 CONTENTS = ["zero", "extremes", "alternate", "noise", "ramp", "quiet", "impulse", "sine", "loud-quiet", "mixture"]
-OWN_KIND = {"C05": "write", "C07": "partition", "C04": "geom"}
+OWN_KIND = {"C05": "write", "C07": "partition", "C04": "geom", "C02": "narrow"}
 M32 = 0xFFFFFFFF
 
 
@@ -292,6 +296,9 @@ def anchors(rng):
         xs = [-(abs(x) | 1) for x in content(rng, "noise", 70 * ch)]
         ops = [("w", "s32", "i", len(xs), [((x << 16) | 0x8001) & M32 for x in xs])]
         jobs.append(Job("%s-ch%d-anchor-negint" % (fn, ch), cont, sub, ch, sr, {}, "write", "noise", ops, 70))
+        t = Job("%s-ch%d-anchor-negint-shorts" % (fn, ch), cont, sub, ch, sr, {}, "twin", "noise", [("w", "s16", "i", len(xs), [x & 0xFFFF for x in xs])], 70)
+        jobs[-1].kind, jobs[-1].twin = "narrow", t.name
+        jobs.append(t)
         vals = [K.f32bits(v) for v in [1.5, -1.5, 2.0, -2.0, 1.0, -1.0, 0.999999, 3.75, -100.0, 0.5] * (7 * ch)]
         jobs.append(Job("%s-ch%d-anchor-clip" % (fn, ch), cont, sub, ch, sr, {"clip": 1}, "write", "extremes", [("w", "f32", "i", len(vals), vals)], 70))
     return jobs
@@ -307,7 +314,7 @@ def make_jobs(ctx, njobs, prop):
     while k < njobs:
         cont, sub = COMBOS[k % len(COMBOS)]
         ch = 1 + (k // len(COMBOS)) % 2
-        kind = own if rng.random() < 0.45 else rng.choice(["write", "partition", "seek", "geom"])
+        kind = own if rng.random() < 0.45 else rng.choice(["write", "partition", "seek", "geom", "narrow"])
         sr = rng.choice(SRS[:5]) if rng.random() < 0.8 else rng.choice(SRS)
         if kind == "geom":
             p = rng.choice(GEOM_PRODUCTS)
@@ -333,6 +340,30 @@ def make_jobs(ctx, njobs, prop):
         name = "%s-ch%d-sr%d-n%d-%s-%s-%d" % (fmt_name(cont, sub), ch, sr, n, kind, cname, k)
         k += 1
         spent += n * ch
+        if kind == "narrow":
+            n = min(n, 3 * spb)
+            xs = content(rng, cname, n * ch)
+            nops, sops, i = [], [], 0
+            for c in split_frames(rng, n, spb):
+                part = xs[i * ch:(i + c) * ch]
+                if rng.random() < 0.6:
+                    vals = [((x << 16) | rng.choice([0x0001, 0x7FFF, 0x8000, 0x8001, 0xFFFF, rng.getrandbits(16)])) & M32 for x in part]
+                    nops.append(("w", "s32", rng.choice("if"), c * ch, vals))
+                else:
+                    ms_ = [rng.randrange(-65535, 65536) for _ in part]
+                    ms_ = [m if (m * 32767) % 65536 != 32768 else m + 1 for m in ms_]            # no ties: the nearest integer is unique
+                    vals = [K.f64bits(m / 65536.0) for m in ms_]
+                    part = [(m * 32767 + 32768) // 65536 for m in ms_]                           # nearest integer to x * 32767 (exact rational arithmetic)
+                    nops.append(("w", "f64", rng.choice("if"), c * ch, vals))
+                sops.append(("w", "s16", "i", c * ch, [x & 0xFFFF for x in part]))
+                i += c
+            flags = {k_: v for k_, v in flags.items() if k_ != "normD"}
+            j = Job(name, cont, sub, ch, sr, flags, "narrow", cname, nops, n)
+            t = Job(name + "-shorts", cont, sub, ch, sr, flags, "twin", cname, sops, n)
+            j.twin = t.name
+            jobs += [j, t]
+            spent += n * ch
+            continue
         if kind == "seek" and ops:
             plain = Job(name + "-noseek", cont, sub, ch, sr, flags, "twin", cname, list(ops), n)
             where = sorted({rng.randrange(len(ops) + 1) for _ in range(rng.choice([1, 1, 2, 3]))})
@@ -546,6 +577,9 @@ def campaign(ctx, njobs, prop):
                     continue
                 stats["seek_twins_compared"] += 1
                 cat, what = "seekclean", "with %d refused sf_seek calls between the writes and without them" % infos[j.name]["refused"]
+            elif j.kind == "narrow":
+                stats["narrowing_twins_compared"] += 1
+                cat, what = "narrow", "as ints / normalised doubles and as the shorts the conversion rules make of them"
             else:
                 stats["twins_compared"] += 1
                 cat, what = "partition", "in %d calls and in %d calls" % (len(j.calls()), len(t.calls()))
@@ -559,6 +593,7 @@ def campaign(ctx, njobs, prop):
 
 
 CATS = {
+    "C02": {"narrow", "crash", "open"},
     "C04": {"frames", "crash", "open"},
     "C05": {"count", "frames", "seekclean", "crash", "open"},
     "C07": {"partition", "seekclean", "crash", "open"},
